@@ -64,6 +64,8 @@ def op_universe():
         ops.append(("insert2", i, [("b", 2), ("b", 1), ("a", 1)]))
         ops.append(("insert2", i, {"b": 1}))
     ops.append(("insert2", "0", ("a", 1)))  # TypeError: index not an int
+    ops.append(("insert_iter", 0, [("a", 1), ("b", 2)]))
+    ops.append(("insert_iter", 1, [("b", 1)]))
     # refused part-way: a sequence of pairs with a malformed element that is
     # not the first one (TypeError; the container must be left as it was)
     for i in (0, 1, -1):
@@ -127,6 +129,25 @@ def check_step(rec, clsname, cls, c, m, op, m_before, probe_keys,
                probe_values, workload, witness):
     """Apply *op* to real and model, compare everything. True if clean."""
     feats = op_features(op, m_before)
+    if op[0] == "insert_iter":
+        # a one-shot iterator of pairs: either refused (TypeError, nothing
+        # changed) or taken like the list of the same pairs - never half of it
+        try:
+            c.insert(op[1], iter(list(op[2])))
+            got = ("ok", None)
+        except contracts.InvariantBroken as e:
+            rec.violation("C10", clsname, "invariant-broken-by-op", feats,
+                          witness, str(e))
+            return False
+        except TypeError:
+            got = ("exc", "TypeError")
+        except Exception as e:
+            got = ("exc", type(e).__name__)
+        op = ("insert2", op[1], list(op[2])) if got[0] == "ok" else ("extend", [], {})
+        exp = apply_model(m, op)
+        exp = got if got == ("exc", "TypeError") else exp
+        return _after_op(rec, clsname, cls, c, m, op, feats, witness, exp, got,
+                         probe_keys, probe_values)
     try:
         got = apply_real(c, op)
     except contracts.InvariantBroken as e:
@@ -136,6 +157,12 @@ def check_step(rec, clsname, cls, c, m, op, m_before, probe_keys,
     except Exception as e:  # an exception type the model never predicts
         got = ("exc", type(e).__name__)
     exp = apply_model(m, op)
+    return _after_op(rec, clsname, cls, c, m, op, feats, witness, exp, got,
+                     probe_keys, probe_values)
+
+
+def _after_op(rec, clsname, cls, c, m, op, feats, witness, exp, got, probe_keys,
+              probe_values):
     clean = True
     if exp != got:
         rec.violation(
@@ -170,6 +197,16 @@ def check_step(rec, clsname, cls, c, m, op, m_before, probe_keys,
                 else:
                     variants = [[("a", 1)]]
                 ne = all((c != cls(x)) and not (c == cls(x)) for x in variants)
+                # values that are equal without being the same: the lists are
+                # equal, so the containers are
+                swap = {0: -0.0, 1: 1.0, 2: 2.0, 3: 3.0, -0.0: 0.0, True: 1}
+                mapped = [(k, swap.get(v, v) if isinstance(v, (int, float)) and
+                           not isinstance(v, bool) else v) for k, v in m.items]
+                if mapped != [] and list(m.items) == mapped and any(
+                        type(a[1]) is not type(b[1]) or repr(a[1]) != repr(b[1])
+                        for a, b in zip(m.items, mapped)):
+                    rec.count("equality_checks_with_equal_but_different_values")
+                    eq1 = eq1 and (c == cls(mapped)) and not (c != cls(mapped))
             rec.count("equality_checks", 1 + len(variants))
             if not (eq1 and ne):
                 rec.violation("C10", clsname, "equality", {"cls": clsname},
@@ -236,13 +273,14 @@ def bfs(rec, hb, clsname, cls, depth, max_states, part, nparts):
 
 
 def random_histories(rec, hb, rng, classes, n_hist, pvl):
-    K = ("a", "b", "c", "d")
+    # (one key has characters at its ends that str.strip() would remove)
+    K = ("a", "b", "c", "d", "\xa0e ")
     col = pvl.collections
 
     def val():
         r = rng.random()
         if r < 0.45:
-            return rng.choice((1, 2, 3, 0))
+            return rng.choice((1, 2, 3, 0, 0.0, -0.0))
         if r < 0.6:
             return rng.choice(("x", "", "a"))
         if r < 0.7:
@@ -274,6 +312,8 @@ def random_histories(rec, hb, rng, classes, n_hist, pvl):
                 # malformed element after good ones: refused as a whole
                 arg = arg + [rng.choice((("c",), 3, ("a", 1, 2)))]
             return ("insert2", idx, arg)
+        if r < 0.40:
+            return ("insert_iter", idx, [pair() for _ in range(rng.randint(1, 3))])
         if r < 0.46:
             name = rng.choice(("insert_before", "insert_after"))
             arg = pair() if rng.random() < 0.6 else [pair(), pair(), pair()]
@@ -329,11 +369,11 @@ def aliasing_histories(rec, hb, rng, classes, n_hist, pvl):
     has its own model; after every step *all* of them are compared, so state
     shared between two containers (a value list, an index, a view) shows as
     soon as one of them is changed."""
-    K = ("a", "b", "c")
+    K = ("a", "b", "c", " d\xa0")
     col = pvl.collections
 
     def pair():
-        return (rng.choice(K), rng.choice((1, 2, 3, "x", None)))
+        return (rng.choice(K), rng.choice((1, 2, 3, "x", None, 0.0, -0.0)))
 
     def rand_op(n):
         r = rng.random()
@@ -523,6 +563,7 @@ def finish_kwargs(rec, tier):
                            "sample",
         },
         required_counters=("bfs_transitions_checked", "random_steps",
+                           "equality_checks_with_equal_but_different_values",
                            "aliasing_steps", "spawn[ctor]", "spawn[copy]",
                            "spawn[extend-empty]",
                            "invariant_evaluations", "equality_checks",
